@@ -12,7 +12,7 @@ import time
 
 VERIF = os.path.dirname(os.path.dirname(os.path.abspath(__file__)))
 REPO = os.environ.get("VERIF_REPO", "/repo")
-WORK = os.path.join(VERIF, "_work")
+WORK = os.environ.get("VERIF_WORK") or os.path.join(VERIF, "_work")      # (override: isolated trial runs of seeded changes)
 GUARD = "LIBOCCA_OCCA_VERIF"
 
 VARIANTS = {
